@@ -253,9 +253,32 @@ func detectListMapKey(lists ...[]interface{}) string {
 	// If all objects have one of the known conventional merge keys in common,
 	// we'll guess that this is a list map.
 	for _, key := range knownMergeKeys {
-		if commonKeys[key] {
+		// The key has to identify the items: if two items of one list share its
+		// value (e.g. the same port number for TCP and UDP), treating the list as
+		// a map would silently drop one of them.
+		if commonKeys[key] && mergeKeyIsUnique(key, lists...) {
 			return key
 		}
 	}
 	return ""
+}
+
+// mergeKeyIsUnique reports whether all items are objects and, within each of
+// the lists, no two items have the same value for key.
+func mergeKeyIsUnique(key string, lists ...[]interface{}) bool {
+	for _, list := range lists {
+		seen := make(map[string]bool, len(list))
+		for _, item := range list {
+			obj, ok := item.(map[string]interface{})
+			if !ok {
+				return false
+			}
+			val := stringMergeKey(obj[key])
+			if seen[val] {
+				return false
+			}
+			seen[val] = true
+		}
+	}
+	return true
 }
